@@ -394,6 +394,23 @@ let run_alloc (nslots : string) (k : string) (ops : string) : string =
     (if tr = [] then "-" else String.concat "," (List.map show_event tr))
     (List.length h.M.h_live) nbad
 
+(* ---------- kernel cross-check (tools/xcheck.py): flat integer lists, printed like Coq prints them *)
+let zs_of_csv s = if s = "-" then [] else List.map z_of_string (String.split_on_char ',' s)
+let run_xc (w : string list) : string =
+  let show l = String.concat " " (List.map string_of_z l) in
+  match w with
+  | ["arith"; a; b] -> show (M.xc_arith (z_of_string a) (z_of_string b))
+  | ["q"; an; ad; bn; bd] -> show (M.xc_q (z_of_string an) (z_of_string ad) (z_of_string bn) (z_of_string bd))
+  | ["codec"; hex; off] -> show (M.xc_codec (bytes_of_hex hex) (nat_of_int (int_of_string off)))
+  | ["crc"; hex] -> show (M.xc_crc (bytes_of_hex hex))
+  | ["load"; hex] -> show (M.xc_load (bytes_of_hex hex))
+  | ["rth"; hex; tn; td] -> show (M.xc_rth (bytes_of_hex hex) (z_of_string tn) (z_of_string td))
+  | ["traj"; hex; tn; td] -> show (M.xc_traj (bytes_of_hex hex) (z_of_string tn) (z_of_string td))
+  | ["yaw"; hex; tn; td] -> show (M.xc_yaw (bytes_of_hex hex) (z_of_string tn) (z_of_string td))
+  | ["light"; hex; t] -> show (M.xc_light (bytes_of_hex hex) (z_of_string t))
+  | ["alloc"; k; codes] -> show (M.xc_alloc (z_of_string k) (zs_of_csv codes))
+  | _ -> "bad-args"
+
 let run_util (w : string list) : string =
   match w with
   | ["travel"; d; v; a] -> show_fnum (M.travel_time (fnum_of_hex d) (fnum_of_hex v) (fnum_of_hex a))
@@ -559,6 +576,7 @@ let run_case (w : string list) : string =
   | ["build"; sc; fl; calls] -> run_build sc fl calls
   | "rth2traj" :: rest -> run_rth2traj rest
   | ["alloc"; n; k; ops] -> run_alloc n k ops
+  | "xc" :: rest -> run_xc rest
   | "util" :: rest -> run_util rest
   | ["light"; mode; b; qs] -> run_light mode (bytes_of_hex b) (if qs = "-" then [] else String.split_on_char ',' qs)
   | ["lightspec"; b; qs] -> run_lightspec (bytes_of_hex b) (if qs = "-" then [] else String.split_on_char ',' qs)
